@@ -3,8 +3,8 @@ CONSTANTS
   MaxVol = 3
   MinSize = 0
   MaxSize = 3
-  Emit = TRUE
-  Fixed = TRUE
+  Emit = FALSE
+  Fixed = FALSE
 VIEW View
-INVARIANTS OkOrKF PosAgree
+INVARIANTS Ok PosAgree
 CHECK_DEADLOCK FALSE
